@@ -11,10 +11,13 @@
 (*                                                                         *)
 (* Parameters come from the JSON file named by environment variable        *)
 (* LEXPARSE_CFG (written by the harness):                                  *)
-(*   { "deviations": [names], "prune": 0|1,                                *)
-(*     "groups": [ { "maxlen": L, "alphabet": [[cp, ...], ...] }, ... ] }  *)
-(* prune = 1: a string whose parse already failed strictly inside it is    *)
-(* still emitted but not extended (viable-prefix enumeration).             *)
+(*   { "deviations": [names],                                              *)
+(*     "groups": [ { "maxlen": L, "prune": 0|1,                            *)
+(*                   "alphabet": [[cp, ...], ...] }, ... ] }               *)
+(* prune = 0: ALL strings up to the length.  prune = 1: a string whose     *)
+(* parse already failed strictly inside it is still emitted but not        *)
+(* extended (viable-prefix enumeration: every string in which the parser   *)
+(* gets to look at the last token).                                        *)
 (*                                                                         *)
 (* One state per string; the successor relation appends one lexeme, so the *)
 (* work parallelises over the TLC workers.                                 *)
@@ -24,7 +27,6 @@ EXTENDS SQGrammar, Json, IOUtils
 Cfg == JsonDeserialize(IOEnv.LEXPARSE_CFG)
 CfgDeviations == Range(Cfg.deviations)
 Groups == Cfg.groups
-Prune == Cfg.prune = 1
 
 MCExtraInfo(c) == [cls |-> "other", s |-> "?", dv |-> -1]
 
@@ -37,13 +39,26 @@ Render(alpha, str, i) ==
     ELSE IF i = 1 THEN alpha[str[i]] \o Render(alpha, str, i + 1)
     ELSE <<cSP>> \o alpha[str[i]] \o Render(alpha, str, i + 1)
 
+Base == Deviations \cap {"ReservedNeedsLookahead"}     \* refinement the normative text allows (DESIGN 4/C16)
+Candidates == Deviations \ Base
+
+(* the smallest sets of listed deviations under which the specification yields result d *)
+Explain(lx, d) ==
+    LET one == {{x} : x \in {y \in Candidates : ParseLexedD(lx, Base \cup {y}) = d}} IN
+    IF one # {} THEN one
+    ELSE LET two == {S \in SUBSET Candidates : Cardinality(S) = 2 /\ ParseLexedD(lx, Base \cup S) = d} IN
+         IF two # {} THEN two
+         ELSE LET three == {S \in SUBSET Candidates : Cardinality(S) = 3 /\ ParseLexedD(lx, Base \cup S) = d} IN
+              IF three # {} THEN three ELSE {Candidates}      \* more than three needed: the listed set itself
+
 Result(gi, str) ==
     LET text == Render(Groups[gi].alphabet, str, 1)
         lx == Lex(text)
-        n == ParseLexedD(lx, {})
+        n == ParseLexedD(lx, Base)
         d == ParseLexedD(lx, Deviations)
     IN [g |-> gi, s |-> str, ntok |-> Len(lx.toks), n |-> n, same |-> (n = d),
         d |-> IF n = d THEN [ok |-> TRUE] ELSE d,
+        expl |-> IF n = d THEN {} ELSE Explain(lx, d),
         viable |-> n.look > Len(lx.toks) \/ d.look > Len(lx.toks)]
 
 Init == /\ g \in DOMAIN Groups
@@ -51,7 +66,7 @@ Init == /\ g \in DOMAIN Groups
         /\ out = Result(g, <<>>)
 
 Next == /\ Len(s) < Groups[g].maxlen
-        /\ (~Prune \/ out.viable)
+        /\ (Groups[g].prune = 0 \/ out.viable)
         /\ \E a \in DOMAIN Groups[g].alphabet :
               /\ s' = Append(s, a)
               /\ out' = Result(g, s')
@@ -60,6 +75,12 @@ Next == /\ Len(s) < Groups[g].maxlen
 Spec == Init /\ [][Next]_vars
 
 Emit == PrintT(ToJson(out))
+
+(* the grammar constants, printed once; the harness compares them with the p_*.__doc__ strings, the    *)
+(* precedence table, the lexer's master-regex order and the generated LALR table of the tree under test *)
+ASSUME PrintT(ToJson([constants |-> "SQGrammar", productions |-> Productions, precedence |-> Precedence,
+                      ruleorder |-> RuleOrder, reservedFollow |-> ReservedFollow, keywords |-> {<<StrOf(kw), Keywords[kw]>> : kw \in DOMAIN Keywords},
+                      noAttrAccess |-> NoAttrAccess]))
 
 (* static checks on the grammar constants, evaluated once *)
 ASSUME NoAttrAccess
